@@ -236,7 +236,7 @@ def c09_4(ctx: Ctx) -> RuleResult:
             mask_e = c.args[pnames.index("mask")]
         if mask_e is None and len(c.args) >= 3:
             mask_e = c.args[2]
-        leaves = gated_values(ctx, f, mask_e) if mask_e is not None else list(guard_leaves(X.force_inline(mask_t, f)))
+        leaves = gated_values(ctx, f, mask_e, strip_wrappers=True) if mask_e is not None else list(guard_leaves(X.force_inline(mask_t, f)))
         mask_t = ("tuple", tuple(l_ for _c, l_ in leaves)) if leaves else mask_t
         smap = [s for s in subterms(mask_t) if ends_with_attrs(s, "gradient", "samplers")]
         vmask = [s for s in subterms(mask_t) if _mask(s)]
